@@ -73,6 +73,7 @@ type evSpec struct {
 	Parents                    []parSpec
 	CurEpoch                   uint32
 	Validators                 []uint32
+	WarmUp                     bool // the checkers validated another event under another node state before
 }
 
 // ---------------------------------------------------------------------------------------------
@@ -427,7 +428,7 @@ type reader struct {
 	e idx.Epoch
 }
 
-func (r reader) GetEpochValidators() (*pos.Validators, idx.Epoch) { return r.v, r.e }
+func (r *reader) GetEpochValidators() (*pos.Validators, idx.Epoch) { return r.v, r.e }
 
 func build(e evSpec, weights []uint32) (dag.Event, dag.Events, *eventcheck.Checkers) {
 	byTag := map[int]*tdag.TestEvent{}
@@ -466,10 +467,30 @@ func build(e evSpec, weights []uint32) (dag.Event, dag.Events, *eventcheck.Check
 	for i, v := range e.Validators {
 		b.Set(idx.ValidatorID(v), pos.Weight(weights[i]))
 	}
+	rd := &reader{b.Build(), idx.Epoch(e.CurEpoch)}
 	ch := &eventcheck.Checkers{
 		Basiccheck:   basiccheck.New(),
-		Epochcheck:   epochcheck.New(reader{b.Build(), idx.Epoch(e.CurEpoch)}),
+		Epochcheck:   epochcheck.New(rd),
 		Parentscheck: parentscheck.New(),
+	}
+	if e.WarmUp {
+		// the checkers are long-lived objects: before this case's event they validated an event of the same
+		// epoch while the node was in that epoch with another validator set; then the node moved on to the
+		// state of this case. Nothing of the earlier call may influence the verdict.
+		cur := *rd
+		wb := pos.NewBuilder()
+		wb.Set(idx.ValidatorID(e.Creator), 1)
+		wb.Set(idx.ValidatorID(e.Creator)+1, 2)
+		rd.v, rd.e = wb.Build(), idx.Epoch(e.Epoch)
+		w := &tdag.TestEvent{}
+		w.SetEpoch(idx.Epoch(e.Epoch))
+		w.SetSeq(1)
+		w.SetFrame(1)
+		w.SetCreator(idx.ValidatorID(e.Creator))
+		w.SetLamport(1)
+		w.SetID([24]byte{0xdd})
+		_ = ch.Validate(w, nil)
+		*rd = cur
 	}
 	return ev, parents, ch
 }
@@ -479,6 +500,7 @@ func build(e evSpec, weights []uint32) (dag.Event, dag.Events, *eventcheck.Check
 
 func propC13(t *rapid.T) {
 	e := genCase(t)
+	e.WarmUp = rapid.Bool().Draw(t, "longLivedCheckers")
 	weights := make([]uint32, len(e.Validators))
 	for i := range weights {
 		weights[i] = rapid.Uint32Range(1, 5).Draw(t, fmt.Sprintf("w%d", i))
